@@ -1,6 +1,7 @@
 package main
 
 import (
+	"encoding/json"
 	"fmt"
 	"reflect"
 	"sort"
@@ -32,7 +33,13 @@ var c15Steps = []struct {
 	op   int
 }{
 	{"put,qk,v", 1}, {"del,qk", 2}, {"vp,qk", 3}, {"pput,qk,v", 4}, {"pdel,qk", 5}, {"ppurge,qk", 6}, {"pvp,qk", 7},
-	{"event,qe,v", 8}, {"get,qk", 20}, {"put,d1,", 1},
+	{"event,qe,v", 8}, {"get,qk", 20}, {"put,d1,", 1}, {"get,d1", 20},
+}
+
+// the same steps with their data, as terms of the model's second part (keys: qk -> 1, d1 -> 2)
+var c15QopTerm = map[string]string{
+	"put,qk,v": "QPut 1 [118]", "del,qk": "QDel 1", "vp,qk": "QOtherWrite 3", "pput,qk,v": "QOtherWrite 4", "pdel,qk": "QOtherWrite 5",
+	"ppurge,qk": "QOtherWrite 6", "pvp,qk": "QOtherWrite 7", "event,qe,v": "QEvent 1 [118]", "get,qk": "QGet 1", "put,d1,": "QPut 2 []", "get,d1": "QGet 2",
 }
 
 // effectsOf lists the mutating operations that reached the peer in one simulated transaction.
@@ -89,7 +96,7 @@ func genC15(c *Ctx) error {
 		}
 	}
 	c.Notes["stub_methods_classified"] = it.NumMethod()
-	c.Notes["rule"] = "scripted query bodies of 1-6 steps drawn from every mutating stub operation (put, put-empty, delete, event, validation parameter, private data put/delete/purge/validation parameter) and reads; query without a sender (direct call) and with a sender (direct call and as a task of executeTasks), with an access-control answer that does / does not carry changed-key transactions; on the task route a third of the queries share their request with a read-only transaction of a bystander, half of these under the same task id; the same bodies in a query method of a gRPC service registered through the gRPC router (the repository's sample BalanceService, METHOD_TYPE_QUERY), through the call context's stub and the contract's; plus every query function of the base contract and base token with valid and invalid arguments. Observed: the complete write set, event and private-data / validation-parameter attempts the simulated peer received for that invocation, and whether the committed ledger changed. Non-trivial: the body attempts at least one mutating operation."
+	c.Notes["rule"] = "scripted query bodies of 1-6 steps drawn from every mutating stub operation (put, put-empty, delete, event, validation parameter, private data put/delete/purge/validation parameter) and reads; query without a sender (direct call) and with a sender (direct call and as a task of executeTasks), with an access-control answer that does / does not carry changed-key transactions; on the task route a third of the queries share their request with a read-only transaction of a bystander, half of these under the same task id; the same bodies in a query method of a gRPC service registered through the gRPC router (the repository's sample BalanceService, METHOD_TYPE_QUERY), through the call context's stub and the contract's; plus every query function of the base contract and base token with valid and invalid arguments. For half of the sender-less direct queries also the values their reads returned are compared (the committed ones, whatever the body attempted before reading). Observed: the complete write set, event and private-data / validation-parameter attempts the simulated peer received for that invocation, and whether the committed ledger changed. Non-trivial: the body attempts at least one mutating operation."
 	rng := c.Rng
 	w := NewWorld()
 	if _, err := w.AddToken("TT", ChanOpts{}); err != nil {
@@ -100,6 +107,8 @@ func genC15(c *Ctx) error {
 	changed := w.NewAccount(fpb.KeyType_ed25519)
 	changed.SignedTx = []string{"tx1", "tx2"} // the ACL reports changed-key transactions for this account
 	bystander := w.NewAccount(fpb.KeyType_ed25519)
+	// committed values of the keys the bodies touch (a query must read these, whatever it "wrote" before)
+	ch.State["qk"], ch.State["d1"] = []byte("committed"), []byte("old")
 	nonce := uint64(1700000000000)
 	n := c.N(400, 6000)
 	for i := 0; i < n; i++ {
@@ -175,6 +184,23 @@ func genC15(c *Ctx) error {
 			aclChanged = aclChanged && sender
 		}
 		term := fmt.Sprintf("mkCase %s %s %s %s %s %s", route, coqBool(sender), coqBool(aclChanged), coqList(body), intsTerm(eff), coqBool(!stateEqual(before, ch)))
+		if !sender && res.OK() && !strings.Contains(script, "fail") && i%2 == 0 {
+			// the same invocation against the model with data: what the reads returned (the committed values, whatever the body
+			// attempted before reading)
+			var qops, reads []string
+			for _, st := range steps {
+				qops = append(qops, c15QopTerm[st])
+			}
+			var joined string
+			if err := json.Unmarshal(res.Payload, &joined); err == nil && joined != "" {
+				for _, kv := range strings.Split(joined, "|") {
+					reads = append(reads, coqStr(strings.SplitN(kv, "=", 2)[1]))
+				}
+			}
+			committed := fmt.Sprintf("[(1, %s); (2, %s)]", coqBytes(ch.State["qk"]), coqBytes(ch.State["d1"]))
+			term = fmt.Sprintf("mkReads %s %s %s %s %s", committed, coqList(qops), coqList(reads), intsTerm(eff), coqBool(!stateEqual(before, ch)))
+			c.Count("reads_compared")
+		}
 		mut := false
 		for _, b := range body {
 			if x, _ := strconv.Atoi(b); x <= 8 {
